@@ -121,6 +121,30 @@ def evaluate(ctx, script, tr):
     return vs
 
 
+def seq_identity(ctx, binp):
+    """Seq / ToSeq: identity (no concurrency)"""
+    import os, subprocess
+    lists = [[]] + [[ctx.rng.randrange(-50, 50) for _ in range(ctx.rng.randrange(0, 12))] for _ in range(200 if ctx.thorough() else 40)]
+    fin, fout = os.path.join(ctx.tmp, "seq.in"), os.path.join(ctx.tmp, "seq.out")
+    open(fin, "w").write("".join(" ".join(map(str, l)) + "\n" for l in lists))
+    p = subprocess.run([binp, "-test.run", "TestSeqToSeq", "-test.count=1"], env=dict(os.environ, SEQ_IN=fin, SEQ_OUT=fout), capture_output=True, text=True)
+    impl = open(fout).read().split("\n")[:-1] if os.path.exists(fout) else []
+    model = ctx.oracle("lockstep", ["seq " + " ".join(map(str, l)) for l in lists])
+    model = [m.replace("true", "true") for m in model]
+    if len(impl) != len(lists):
+        ctx.broken.append({"kind": "correspondence", "detail": "Seq/ToSeq harness produced %d lines for %d cases: %s" % (len(impl), len(lists), (p.stdout + p.stderr)[-400:])})
+        return
+    for l, i, m in zip(lists, impl, model):
+        ctx.count("seq " + str(l), nontrivial=len(l) > 0)
+        want = "%d %d | %s | true" % (len(l), len(l), " ".join(map(str, l)))
+        if i != want:
+            ctx.violations.append(vlib.Violation("impl", "ToSeq(Seq(%s)) is not the identity / channel not closed with capacity len" % l, case="seq " + " ".join(map(str, l)), expected=want, got=i, key={"stage": "Seq"}))
+        if i == m:
+            ctx.cov["traces_validated_against_impl"] += 1
+        else:
+            ctx.broken.append({"kind": "correspondence", "detail": "Seq/ToSeq", "case": l, "impl": i, "model": m})
+
+
 def run(ctx):
     ctx.cov["rule"] = ("script = stage config (stage, input capacity, predicate modulus, n) + environment moves (sends of distinct ints, "
                        "close, non-blocking receives on every output, final drain) replayed under testing/synctest; non-trivial = at least one "
@@ -138,4 +162,9 @@ def run(ctx):
             scripts += exhaustive(3)
         if ctx.broken:
             scripts += [gen_script(ctx.rng, maxlen=10) for _ in range(4 * n)]
-    ls.judge(ctx, scripts, lambda s, tr: evaluate(ctx, s, tr))
+    binp, err = ls.build(ctx)
+    if binp is None:
+        ctx.broken.append({"kind": "correspondence", "detail": "lock-step harness does not build against /repo/pipe", "log": err})
+        return
+    ls.judge(ctx, scripts, lambda s, tr: evaluate(ctx, s, tr), binp=binp)
+    seq_identity(ctx, binp)
